@@ -1,6 +1,7 @@
 import RemocModel.Table.ConnReq
 import RemocModel.Table.ConnOpen
 import RemocModel.Table.ConnFlag
+import RemocModel.Table.ConnHandle
 set_option linter.unusedSimpArgs false
 set_option linter.unusedVariables false
 /-
@@ -298,6 +299,49 @@ theorem inv3_run (s : St) (ls : List (Who × Lab)) (hi : Inv3 s) : Inv3 (run s l
     simp only [run]
     split
     · rename_i s' hs; exact ih s' (inv3_step s s' x l hi hs)
+    · exact ih s hi
+
+/-- the complete global invariant -/
+structure Inv4 (s : St) : Prop where
+  i3 : Inv3 s
+  aa : AllocInv s.a
+  ab : AllocInv s.b
+  ha : HandleInv s.a
+  hb : HandleInv s.b
+
+theorem allocInv_init (e : Ep) (h1 : e.ports = []) (h2 : e.allocated = []) : AllocInv { ep := e } :=
+  ⟨⟨fun q => by simp [h1, h2, lookup, heldNums, connPorts, accPorts], fun q hq => by simp [heldNums, connPorts, accPorts] at hq,
+    by simp [h2], by simp [h2]⟩, by simp [heldNums, connPorts, accPorts]⟩
+
+theorem handleInv_init (e : Ep) (h1 : e.ports = []) : HandleInv { ep := e } := by
+  refine ⟨?_, by simp [sdPorts], ?_, ?_, ?_, by simp [rdPorts], ?_, ?_, ?_, by simp [rcPorts], ?_, rfl⟩ <;>
+    simp [sdPorts, rdPorts, rcPorts, h1, lookup]
+
+theorem inv4_init (mpA cqA mpB cqB : Nat) : Inv4 (init mpA cqA mpB cqB) :=
+  ⟨inv3_init mpA cqA mpB cqB, allocInv_init _ rfl rfl, allocInv_init _ rfl rfl, handleInv_init _ rfl, handleInv_init _ rfl⟩
+
+theorem inv4_step (s s' : St) (x : Who) (l : Lab) (hi : Inv4 s) (h : step s x l = some s') : Inv4 s' := by
+  have h3 := inv3_step s s' x l hi.i3 h
+  cases x with
+  | A =>
+    simp only [step, Option.map_eq_some_iff] at h
+    obtain ⟨⟨a', inW, out⟩, hs, rfl⟩ := h
+    exact ⟨h3, allocInv_step _ _ _ _ _ _ hs hi.aa hi.i3.i2.r.qa, hi.ab,
+           handleInv_step _ _ _ _ _ _ hs hi.ha hi.i3.i2.r.qa hi.i3.i2.r.wa, hi.hb⟩
+  | B =>
+    simp only [step, Option.map_eq_some_iff] at h
+    obtain ⟨⟨b', inW, out⟩, hs, rfl⟩ := h
+    exact ⟨h3, hi.aa, allocInv_step _ _ _ _ _ _ hs hi.ab hi.i3.i2.r.qb,
+           hi.ha, handleInv_step _ _ _ _ _ _ hs hi.hb hi.i3.i2.r.qb hi.i3.i2.r.wb⟩
+
+theorem inv4_run (s : St) (ls : List (Who × Lab)) (hi : Inv4 s) : Inv4 (run s ls) := by
+  induction ls generalizing s with
+  | nil => exact hi
+  | cons xl ls ih =>
+    obtain ⟨x, l⟩ := xl
+    simp only [run]
+    split
+    · rename_i s' hs; exact ih s' (inv4_step s s' x l hi hs)
     · exact ih s hi
 
 def side (s : St) : Who → Side
